@@ -555,7 +555,7 @@ def run(ctx, res):
             res.sample({"kind": "witness", "side": case["side"], "hold-out-only": {"samples": hs, "treatments": [list(x) for x in ht]},
                         "line": line[:260], "final": entries[-1][1][:200]}, limit=2)
         t_start = time.time()
-        budget = 75 if max_ops == 8 else 450            # seconds; a loaded machine must not push the tier over its limit
+        budget = 75 if max_ops == 8 else 420            # seconds; a loaded machine must not push the tier over its limit
         for t in range(n_cases):
             if time.time() - t_start > budget:
                 res.notes.append("time budget of %d s reached after %d of %d prepared screens" % (budget, t, n_cases))
